@@ -309,6 +309,17 @@ func (c Case) inverse(m smf.Message) string {
 	case "SequencerData":
 		var bt []byte
 		m.GetMetaSeqData(&bt)
+		// the caller keeps what it got while it decodes further events (data of the same length with
+		// other contents, a short one, a text): that must not change the earlier result
+		var other []byte
+		var txt string
+		decoy := make([]byte, len(c.Payload))
+		for i := range decoy {
+			decoy[i] = ^c.Payload[i] & 0x7F
+		}
+		smf.MetaSequencerData(decoy).GetMetaSeqData(&other)
+		smf.MetaSequencerData([]byte{0x5A, 0x25, 0x5A}).GetMetaSeqData(&other)
+		smf.MetaMarker("zzzzzzzzzzzzzzzzzzzzzzzzzzzzzzzzzzzzzzzzzzzzzzzz").GetMetaMarker(&txt)
 		if !bytes.Equal(bt, c.Payload) {
 			return fmt.Sprintf("GetMetaSeqData returns %d bytes (% X...), MetaSequencerData was given %d bytes (% X...)", len(bt), clip(bt), len(c.Payload), clip(c.Payload))
 		}
@@ -510,7 +521,7 @@ func genCase(t *rapid.T) Case {
 func d8(t *rapid.T) int { return int(rapid.Byte().Draw(t, "byte")) }
 
 var metas = ev.NewCheck("C15", "constructors",
-	"rapid: the 9 text constructors with arbitrary bytes of length 0..20000 (biased to 127/128/129/16383/16384), MetaSequencerData 1..20000 bytes, SMPTE offset fields, time signatures numerator 0..255 x denominator 1..128 (powers of two) x clocks x 32nds (0 = documented shorthand for 8), MetaMeter, tempi as every 24-bit microseconds-per-quarter value (sampled) and random BPM 3.58..6e7; a damaged text/data event is decoded before every case (nothing of it may leak into the next result); payloads start or end with magic sequences (byte order marks, line ends, NUL, FF 2F 00, F7) in one case of six; the multi-value accessors (SMPTE offset, time signature, meter, key signature) are also called with every subset of nil out-parameters; oracle: message is FF/type/canonical VLQ/payload with exact length by the harness parser, exactly the matching accessor accepts, accessor returns the arguments (tempo at most 1 us per quarter away, the resolution of the field); non-trivial = payload >= 128 bytes or a non-text constructor; distinct by case hash",
+	"rapid: the 9 text constructors with arbitrary bytes of length 0..20000 (biased to 127/128/129/16383/16384), MetaSequencerData 1..20000 bytes, SMPTE offset fields, time signatures numerator 0..255 x denominator 1..128 (powers of two) x clocks x 32nds (0 = documented shorthand for 8), MetaMeter, tempi as every 24-bit microseconds-per-quarter value (sampled) and random BPM 3.58..6e7; a damaged text/data event is decoded before every case (nothing of it may leak into the next result); sequencer data handed out by the accessor is compared only after further events (same length other contents, short data, a text) were decoded; payloads start or end with magic sequences (byte order marks, line ends, NUL, FF 2F 00, F7) in one case of six; the multi-value accessors (SMPTE offset, time signature, meter, key signature) are also called with every subset of nil out-parameters; oracle: message is FF/type/canonical VLQ/payload with exact length by the harness parser, exactly the matching accessor accepts, accessor returns the arguments (tempo at most 1 us per quarter away, the resolution of the field); non-trivial = payload >= 128 bytes or a non-text constructor; distinct by case hash",
 	genCase, run)
 
 func TestPropConstructors(t *testing.T) { metas.Rapid(t, 4000, 100000) }
